@@ -205,23 +205,46 @@ func (g *gen) snippet() {
 		g.sink()
 	case x < 50: // copies
 		size, src, dst := uint64(g.r.Intn(70)), uint64(g.r.Intn(80)), g.memOff()
+		// the source offset is a 256-bit word: offsets of 2^64 and beyond read zeros (and make RETURNDATACOPY fail)
+		pushSrc := func() {
+			switch g.r.Intn(12) {
+			case 0:
+				b.PushBig(new(big.Int).Add(new(big.Int).Lsh(big.NewInt(1), 64), big.NewInt(int64(g.r.Intn(40)))))
+			case 1:
+				b.PushBig(new(big.Int).Sub(new(big.Int).Lsh(big.NewInt(1), 64), big.NewInt(int64(1+g.r.Intn(40)))))
+			case 2:
+				b.PushBig(new(big.Int).Lsh(big.NewInt(1), uint(65+g.r.Intn(190))))
+			default:
+				b.Push(src)
+			}
+		}
 		switch g.r.Intn(4) {
 		case 0:
-			b.Push(size).Push(src).Push(dst).Op(asm.CALLDATACOPY)
+			b.Push(size)
+			pushSrc()
+			b.Push(dst).Op(asm.CALLDATACOPY)
 		case 1:
 			if g.o.NoGasObserve || g.o.NoCodeRead { // the compared variants differ in code: do not let the program read its own code
 				b.Push(size).Push(src).Push(dst).Op(asm.CALLDATACOPY)
 			} else {
-				b.Push(size).Push(src).Push(dst).Op(asm.CODECOPY)
+				b.Push(size)
+				pushSrc()
+				b.Push(dst).Op(asm.CODECOPY)
 			}
 		case 2:
 			if g.o.NoCodeRead {
 				b.Push(size).Push(src).Push(dst).Op(asm.CALLDATACOPY)
 			} else {
-				b.Push(size).Push(src).Push(dst).PushAddr(g.anyAddr()).Op(0x3c) // EXTCODECOPY
+				b.Push(size)
+				pushSrc()
+				b.Push(dst).PushAddr(g.anyAddr()).Op(0x3c) // EXTCODECOPY
 			}
 		default:
-			b.Push(uint64(g.r.Intn(40))).Op(asm.CALLDATALOAD)
+			if g.r.Intn(10) == 0 {
+				b.PushBig(new(big.Int).Lsh(big.NewInt(1), uint(63+g.r.Intn(190)))).Op(asm.CALLDATALOAD)
+			} else {
+				b.Push(uint64(g.r.Intn(40))).Op(asm.CALLDATALOAD)
+			}
 			g.sink()
 		}
 	case x < 57: // storage
@@ -323,7 +346,13 @@ func (g *gen) snippet() {
 			b.Op(asm.RETURNDATASIZE)
 			g.sink()
 			if g.r.Bool() {
-				b.Push(uint64(g.r.Intn(40))).Push(uint64(g.r.Intn(10))).Push(g.memOff()).Op(asm.RETURNDATACOPY)
+				b.Push(uint64(g.r.Intn(40)))
+				if g.r.Intn(10) == 0 {
+					b.PushBig(new(big.Int).Lsh(big.NewInt(1), uint(64+g.r.Intn(190)))) // offset beyond 2^64: out of bounds whatever the size
+				} else {
+					b.Push(uint64(g.r.Intn(10)))
+				}
+				b.Push(g.memOff()).Op(asm.RETURNDATACOPY)
 			}
 		}
 	case x < 90:
@@ -445,7 +474,16 @@ func (g *gen) call() {
 	if kind == 3 && f < 4 { // STATICCALL from Byzantium
 		kind = 0
 	}
-	b.Push(outsz).Push(outoff).Push(insz).Push(inoff)
+	switch g.r.Intn(40) {
+	case 0: // output region whose offset + size overflows 64 bits: the memory-size function must report overflow
+		b.Push(1+outsz).PushBig(new(big.Int).SetUint64(^uint64(0)-uint64(g.r.Intn(3)))).Push(insz).Push(inoff)
+	case 1: // the same for the input region
+		b.Push(outsz).Push(outoff).Push(1+insz).PushBig(new(big.Int).SetUint64(^uint64(0)-uint64(g.r.Intn(3))))
+	case 2: // an offset beyond 64 bits with size zero is no memory access at all
+		b.Push(0).PushBig(new(big.Int).Lsh(big.NewInt(1), uint(64+g.r.Intn(190)))).Push(insz).Push(inoff)
+	default:
+		b.Push(outsz).Push(outoff).Push(insz).Push(inoff)
+	}
 	if kind == 0 || kind == 1 {
 		vals := []uint64{0, 0, 0, 1, 7, 1 << 62}
 		b.Push(vals[g.r.Intn(len(vals))])
@@ -549,7 +587,7 @@ func (g *gen) create() {
 	f := g.o.Fork
 	// init code: optionally SSTORE, then return a short runtime code / revert / invalid
 	ib := asm.New()
-	switch g.r.Intn(7) {
+	switch g.r.Intn(8) {
 	case 0:
 		ib.Op(asm.INVALID)
 	case 1:
@@ -562,6 +600,9 @@ func (g *gen) create() {
 		ib.Push(1).Push(0).Op(asm.SSTORE).Op(asm.STOP)
 	case 3: // returns code starting with 0xEF
 		ib.Push(0xef).Push(0).Op(asm.MSTORE8).Push(1).Push(0).Op(asm.RETURN)
+	case 5: // returns more code than EIP-170 allows (from Spurious Dragon), after an effect
+		ib.Push(0x43).Push(1).Op(asm.SSTORE)
+		ib.Push(uint64(24577 + g.r.Intn(3000))).Push(0).Op(asm.RETURN)
 	case 4: // has effects (storage, a log), then returns more code than the remaining gas can pay the deposit for
 		ib.Push(0x42).Push(0).Op(asm.SSTORE)
 		ib.Push(0).Push(0).Op(0xa0)
@@ -624,6 +665,23 @@ func ProgramSites(r *rng.R, u Universe, o Opts) ([]byte, []int) {
 	case 2:
 		if o.Fork >= 4 {
 			g.b.Push(uint64(r.Intn(70))).Push(g.memOff()).Op(asm.REVERT)
+		}
+	case 3:
+		if o.Fork >= 4 && r.Bool() {
+			// REVERT with an ABI-encoded Error(string): the call tracers unpack it into revertReason
+			msg := []byte("reason " + string(rune('a'+r.Intn(26))))
+			if r.Intn(4) == 0 {
+				msg = r.Bytes(r.Intn(40)) // not necessarily printable
+			}
+			payload := append([]byte{0x08, 0xc3, 0x79, 0xa0}, common.LeftPadBytes([]byte{0x20}, 32)...)
+			payload = append(payload, common.LeftPadBytes(big.NewInt(int64(len(msg))).Bytes(), 32)...)
+			payload = append(payload, common.RightPadBytes(msg, (len(msg)+31)/32*32)...)
+			n := len(payload)
+			if r.Intn(5) == 0 {
+				n -= 1 + r.Intn(20) // truncated: not unpackable
+			}
+			g.b.MstoreBytes(0x400, payload)
+			g.b.Push(uint64(n)).Push(0x400).Op(asm.REVERT)
 		}
 	}
 	return g.b.Bytes(), g.sites
